@@ -37,6 +37,9 @@ type Node struct {
 	NoHoist bool
 	// Bare: print a kLam without quotes (only when it is a single call).
 	Bare bool
+	// InBody: a call written in the body of a definition (survives the
+	// substitution into a calling template; for labels only).
+	InBody bool
 }
 
 func lit(s string) *Node              { return &Node{K: kLit, S: s} }
@@ -132,7 +135,7 @@ func (p *printer) arg(n *Node) {
 		if p.pad != nil {
 			p.sb.WriteString(p.pad())
 		}
-		p.sb.WriteString(n.S)
+		p.sb.WriteString(writtenName(n.S))
 		for _, a := range n.A {
 			p.sb.WriteString(p.sep())
 			p.arg(a)
@@ -166,6 +169,17 @@ func (p *printer) arg(n *Node) {
 	default:
 		panic("printer: unknown node kind " + n.K)
 	}
+}
+
+// writtenName: a call of a user function carries the identity of the
+// definition it is bound to ("name#index", or "name#?" for a call that is
+// never expanded); the text of the template has the name alone. '#' is in no
+// helper name and no generated name (it starts a comment in a funcs file).
+func writtenName(s string) string {
+	if i := strings.IndexByte(s, '#'); i >= 0 {
+		return s[:i]
+	}
+	return s
 }
 
 func printTemplate(pieces []*Node, sep, pad sepFn) string {
@@ -236,9 +250,18 @@ func walk(l []*Node, f func(n *Node)) {
 
 // Def is one definition of a funcs file.
 type Def struct {
-	Name   string
-	Params []kind  // value kind every parameter is used as
-	Body   []*Node // top-level pieces of the body template
+	// Name identifies the definition: "written#index" (several definitions may
+	// be written with the same name); calls bound to it carry Name, the printer
+	// writes Pub.
+	Name string
+	Pub  string // the name as written in the file
+	File int    // index of the funcs file the definition stands in
+	// ReachesOpaque: the body calls (directly or through other bodies) a name
+	// that is defined more than once and therefore left in place.
+	ReachesOpaque bool
+	Opaque        bool    // stands for "whatever a call of Pub means": never expanded (see visible)
+	Params        []kind  // value kind every parameter is used as
+	Body          []*Node // top-level pieces of the body template
 	// TopOnly: the body has literal text with blanks at its top level, so the
 	// inlined body can only be spliced where blanks are literal: the call must
 	// be a top-level piece of a template.
